@@ -55,10 +55,15 @@ def kind(line):
 class Proc:
     def __init__(self, binary, env, scratch, nofile=None):
         self.dir = tempfile.mkdtemp(prefix="ptstate-", dir=scratch)
-        pre = None
-        if nofile:
-            import resource
-            pre = lambda: resource.setrlimit(resource.RLIMIT_NOFILE, (nofile, nofile))
+        def pre():
+            # tor starts its transports with default signal dispositions; a check that is itself run as a background job
+            # of a non-interactive shell inherits SIGINT / SIGQUIT as IGNORED, which the Go runtime honours until
+            # signal.Notify is called - an early SIGINT would then vanish in the kernel, not in the program
+            for sg in (signal.SIGINT, signal.SIGTERM, signal.SIGHUP, signal.SIGQUIT):
+                signal.signal(sg, signal.SIG_DFL)
+            if nofile:
+                import resource
+                resource.setrlimit(resource.RLIMIT_NOFILE, (nofile, nofile))
         self.p = subprocess.Popen([binary], env=environ(env, self.dir), stdin=subprocess.PIPE, stdout=subprocess.PIPE, stderr=subprocess.DEVNULL,
                                   preexec_fn=pre)
         self.buf = b""
